@@ -14,6 +14,7 @@ import (
 	"os"
 	"path/filepath"
 	"sort"
+	"strings"
 	"sync"
 	"time"
 
@@ -440,7 +441,24 @@ func c19Run(in c19Input) (*c19Net, string) {
 	net.wg.Add(1)
 	go net.dispatcher()
 	for _, nd := range net.nodes {
-		nd.srv.Start()
+		i := nd.i
+		// a validator that panics under an admissible schedule violates the liveness clause like one that stops answering:
+		// reported with the schedule (this case's input) as the replay, not as a crash of the harness
+		consensus.VerifStart(nd.srv, func(v any, st []byte) {
+			where := ""
+			for _, l := range strings.Split(string(st), "\n") {
+				if strings.Contains(l, "dbft.(") || strings.Contains(l, "consensus.(*service).") {
+					where = strings.TrimSpace(l)
+					if k := strings.Index(where, "("); k > 0 && strings.HasSuffix(where, ")") && strings.LastIndex(where, "(") > k {
+						where = where[:strings.LastIndex(where, "(")]
+					}
+					break
+				}
+			}
+			net.mu.Lock()
+			net.violate("node panics under an admissible schedule: consensus service of validator %d: %v (in %s)", i, v, where)
+			net.mu.Unlock()
+		})
 	}
 	target := uint32(in.Blocks)
 	deadline := net.start.Add(time.Duration(in.BudgetMs) * time.Millisecond)
